@@ -165,7 +165,7 @@ def need_gap(a, b):
 
 def no_gap(a, b):
     """positions where the grammar writes tokens adjacent (qualified names, calls, subscripts)"""
-    return a == 'dot' or b == 'dot' or (a == 'fname' and b == 'lp') or b == 'lbr'
+    return a == 'dot' or b == 'dot' or (a == 'fname' and b == 'lp') or b == 'lbr' or a == 'sign'
 
 
 class Spelled:
